@@ -372,22 +372,29 @@ func OnceFunc(f func()) func() {
 type Map struct {
 	real  sync.Map
 	mu    sync.Mutex
-	order []any
+	order [mapCap]any // fixed array + manual loops: append/copy would be seen by the race detector's runtime hooks
+	n     int
 }
+
+const mapCap = 256
 
 //go:norace
 func (m *Map) noteStore(k any) {
 	vrt.RaceDisable()
 	m.mu.Lock()
 	found := false
-	for _, o := range m.order {
-		if o == k {
+	for i := 0; i < m.n; i++ {
+		if m.order[i] == k {
 			found = true
 			break
 		}
 	}
 	if !found {
-		m.order = append(m.order, k)
+		if m.n >= mapCap {
+			panic("vsync.Map: more than 256 keys")
+		}
+		m.order[m.n] = k
+		m.n++
 	}
 	m.mu.Unlock()
 	vrt.RaceEnable()
@@ -397,9 +404,13 @@ func (m *Map) noteStore(k any) {
 func (m *Map) noteDelete(k any) {
 	vrt.RaceDisable()
 	m.mu.Lock()
-	for i, o := range m.order {
-		if o == k {
-			m.order = append(m.order[:i:i], m.order[i+1:]...)
+	for i := 0; i < m.n; i++ {
+		if m.order[i] == k {
+			for j := i; j+1 < m.n; j++ {
+				m.order[j] = m.order[j+1]
+			}
+			m.n--
+			m.order[m.n] = nil
 			break
 		}
 	}
@@ -411,7 +422,10 @@ func (m *Map) noteDelete(k any) {
 func (m *Map) snapshot() []any {
 	vrt.RaceDisable()
 	m.mu.Lock()
-	out := append([]any(nil), m.order...)
+	out := make([]any, m.n)
+	for i := 0; i < m.n; i++ {
+		out[i] = m.order[i]
+	}
 	m.mu.Unlock()
 	vrt.RaceEnable()
 	return out
